@@ -27,17 +27,23 @@ def world : World :=
     jitCompiles := fun p h => EngineSem.jitCompile (envOf p h) == .ok
     clifCompiles := fun p h => EngineSem.clifCompile (envOf p h) == .ok }
 
-def runProg (eng : Nat) (p : Bytes) (h : List (Nat × Nat)) (fixed : Option (Nat × Nat)) (cal : Option Nat) : String :=
+def runProg (eng : Nat) (p : Bytes) (h : List (Nat × Nat)) (fixed : Option (Nat × Nat)) (cal : Option Nat) (pkt : Nat := 0) : String :=
   let stack : Region := ⟨0x7000000000, Array.replicate 512 0⟩
   let m : Memory := match fixed with
-    | none => { mbuff := ⟨1, #[]⟩, mem := ⟨1, #[]⟩, stack, extra := [] }
-    | some (d, e) => memOf .fixed ⟨0x5000000000, #[]⟩ ⟨1, #[]⟩ 0x6000000000 (Array.replicate (fixedBufLen d e) 0) d e stack []
+    | none => { mbuff := ⟨1, #[]⟩, mem := ⟨0x5000000000, Array.replicate pkt 0x5a⟩, stack, extra := [] }
+    | some (d, e) => memOf .fixed ⟨0x5000000000, Array.replicate pkt 0x5a⟩ ⟨1, #[]⟩ 0x6000000000 (Array.replicate (fixedBufLen d e) 0) d e stack []
   -- interpreter: frame sizes from the calculator in force; x86-64 JIT: its own call semantics (no frame table: F16);
   -- Cranelift never compiles programs with local calls, elsewhere it agrees with the interpreter
   match (if eng = 1 then EngineSem.jitRun (envOf p h) (Interp.init m) 1000 else Interp.run (envOf p h cal) (Interp.init m) 1000) with
   | .done r _ => "v" ++ bvHex r
   | .err _ _ => "err"
   | .panic => "panic" | .fault => "fault" | .timeout _ => "budget"
+
+/-- the packet length of an execution op (`x:N`, `xj:N`, `xc:N`; none = empty packet): not part of the API state model -/
+def pktOf (t : String) : Nat :=
+  match t.splitOn ":" with
+  | [o, n] => if o == "x" || o == "xj" || o == "xc" then n.toNat?.getD 0 else 0
+  | _ => 0
 
 def parseOp? (pool : Array Bytes) (t : String) : Option Op :=
   match t.splitOn ":" with
@@ -51,6 +57,9 @@ def parseOp? (pool : Array Bytes) (t : String) : Option Op :=
   | ["x"] => some .exec
   | ["xj"] => some .execJit
   | ["xc"] => some .execClif
+  | ["x", n] => n.toNat?.map fun _ => .exec
+  | ["xj", n] => n.toNat?.map fun _ => .execJit
+  | ["xc", n] => n.toNat?.map fun _ => .execClif
   | _ => none
 
 def handleApi (toks : List String) : String :=
@@ -69,7 +78,8 @@ def handleApi (toks : List String) : String :=
       | none => "new-err"
       | some s0 =>
         let (_, outs) := runOps world s0 ops
-        ",".intercalate (outs.map fun o => match o with | .ok => "ok" | .err => "err" | .ran eng p h f c => runProg eng p h f c)
+        let pkts := (opsS.splitOn ";").map pktOf
+        ",".intercalate ((outs.zip pkts).map fun (o, pkt) => match o with | .ok => "ok" | .err => "err" | .ran eng p h f c => runProg eng p h f c pkt)
     | _, _ => "bad-op"
   | _, _ => "bad-op"
 
